@@ -380,6 +380,23 @@ theorem validate_py_is_model (cfg : Cfg) (n : Negotiated) (t : OpenMsg) :
       liftValidate (validateOpen cfg n t) :=
   py_validate_eq_model cfg n t
 
+/-- **The model is the code** (scalar negotiation): the slice of `Negotiated._negotiate` that computes the hold
+    time, asn4, operational, the two AS numbers in force, the route-refresh flavour, the maximum message size and
+    link-local next hop — translated statement by statement from /repo on this run — computes exactly those
+    fields of the model's `negotiateSets`, for every pair of capability sets, AS fields and hold times.  The
+    theorems `hold_min`, `asn4_both`, `true_as_numbers`, `refresh_flavour`, `msgsize` are therefore about the code
+    as it is: a `min` turned into a `max`, a capability looked up on the wrong side, a swapped refresh test or a
+    wrong size breaks this obligation directly. -/
+theorem negotiate_py_is_model (oursAs oursHold theirsAs theirsHold : Nat) (s r : CapSet)
+    (st0 : Generated.PyNego.NegotiatingSt) (hr : st0.refresh = Generated.PyNego.refreshAbsent)
+    (hm : st0.msg_size = Generated.PyNego.initialSize) :
+    Generated.PyNego.Negotiating.negotiate_scalars st0 oursHold theirsHold oursAs theirsAs
+        ((s.asn4.getD 0 : Nat) : Int) ((r.asn4.getD 0 : Nat) : Int) s.asn4.isSome r.asn4.isSome
+        s.asn4.isSome r.asn4.isSome s.operational r.operational s.enhanced r.enhanced s.refresh r.refresh
+        s.extMsg r.extMsg s.linkLocal r.linkLocal =
+      .ret () (scalarsOf (negotiateSets oursAs oursHold theirsAs theirsHold s r)) :=
+  py_negotiate_scalars_eq_model oursAs oursHold theirsAs theirsHold s r st0 hr hm
+
 /-- **bad_peer_as → 2/2**: a peer AS is configured and the peer AS in force differs. -/
 theorem refuse_bad_peer_as (cfg : Cfg) (n : Negotiated) (t : OpenMsg) (h0 : cfg.peerAs ≠ 0)
     (h : n.peerAs ≠ cfg.peerAs) : validateOpen cfg n t = some ⟨2, 2⟩ := by
